@@ -97,11 +97,11 @@ theorem C06_namespace_in_class (env : Env) (loc : LocRef) (doxygen : Option Stri
     ∃ msg, interp env (P.nsFinish loc doxygen inline names a) w = (w, .error (.parse msg none)) :=
   namespace_in_class env loc doxygen inline names a w blk rest hstack hk
 
-theorem C06_concept_in_class (env : Env) (F : Nat) (doxygen : Option String) (template : TemplateDecl)
+theorem C06_concept_in_class (env : Env) (F : Nat) (ctok : CTok) (doxygen : Option String) (template : TemplateDecl)
     (w : World) (blk : Block) (rest : List Block) (hstack : w.stack = blk :: rest) (hk : blk.view.kind = .cls)
-    (w' : World) (r : Except Err Unit) (h : interp env (P.parseConcept F doxygen template) w = (w', r)) :
+    (w' : World) (r : Except Err Unit) (h : interp env (P.parseConcept F ctok doxygen template) w = (w', r)) :
     ∃ e, r = .error e :=
-  concept_in_class env F doxygen template w blk rest hstack hk w' r h
+  concept_in_class env F ctok doxygen template w blk rest hstack hk w' r h
 
 theorem C06_extern_in_class (env : Env) (F : Nat) (c : P.Core) (tok : CTok) (doxygen : Option String) (str : Tok)
     (w : World) (b1 : Buf) (blk : Block) (rest : List Block) (hstack : w.stack = blk :: rest) (hk : blk.view.kind = .cls)
